@@ -186,6 +186,11 @@ class TxnaExpr(LeafExpr):
             )
         if isinstance(index, Expr):
             require_type(index, TealType.uint64)
+        elif not 0 <= index <= 255:
+            # a constant index is emitted as a one-byte immediate
+            raise TealInputError(
+                f"Invalid array index: {index}. A constant index must be between 0 and 255."
+            )
 
     def __init__(
         self,
